@@ -194,4 +194,112 @@ Proof.
     apply match_env_add; [exact Hme|exact Hfh|rewrite app_length; cbn [length for_hs]; rewrite repeat_length; lia].
 Qed.
 
+Lemma sim_SFor fuel x lo hi body :
+  expr_sim fuel lo -> expr_sim fuel hi -> for_sim fuel x body -> stmt_sim (S fuel) (SFor x lo hi body).
+Proof.
+  intros IHlo IHhi IHf genv en out ce p c ce' p' L fn fe cf pos ret locs st cs g (Hfe & Hcode & Hsz) Hcomp Hc HL Hok Hme Hlen Hmg Hpool Hfuel.
+  apply fuel_small_S in Hfuel. rewrite exec_sfor_eq. rewrite compile_for_eq in Hcomp. destruct Hok as (Hx & Hoklo & Hokhi & Hokb).
+  destruct (compile_expr G ce lo p) as [[clo p1]|] eqn:Elo; [|discriminate].
+  destruct (compile_expr G ce hi p1) as [[chi p2]|] eqn:Ehi; [|discriminate].
+  cbv zeta in Hcomp.
+  destruct (for_sizes (length ce)) as (St & Sf & Si & Sb & Srt & Sri & Sset & Sloop).
+  rewrite St, Sf, Si in Hcomp.
+  match type of Hcomp with context [compile_stmt G ?q ?l ?e body p2] =>
+    destruct (compile_stmt G q l e body p2) as [[[cb0 ce0] p0]|] eqn:E0; [|discriminate] end.
+  match type of Hcomp with context [compile_stmt G ?q ?l ?e body p2] =>
+    destruct (compile_stmt G q l e body p2) as [[[cb ce1] p3]|] eqn:E1; [|discriminate] end.
+  destruct (compile_stmt_size _ _ _ _ _ _ _ _ _ _ _ _ _ _ E1 E0) as (Hsz0 & _ & _). rewrite Hsz0 in E1. clear E0 Hsz0.
+  apply some3_inj in Hcomp. destruct Hcomp as (Hcc & Hce' & Hp'). subst ce' p'.
+  set (top := pos + csize (for_pre clo chi (length ce))) in *.
+  assert (Hcc' : c = for_pre clo chi (length ce) ++ for_tail (length ce) top cb) by (rewrite <- Hcc; reflexivity).
+  clear Hcc. subst c.
+  destruct (compile_stmt_ext _ _ _ _ _ _ _ _ _ E1) as [[x1 Hx1] P3].
+  rewrite !hide_from_length in Hlen.
+  assert (Hl7 : length ce + 7 + length x1 <= length locs).
+  { rewrite Hx1, app_length in Hlen. unfold for_ce in Hlen. rewrite app_length in Hlen. cbn [length] in Hlen. lia. }
+  pose proof (compile_expr_pool _ _ _ _ _ _ Ehi) as P2.
+  assert (Hcs : csize (for_pre clo chi (length ce) ++ for_tail (length ce) top cb) =
+                csize (for_pre clo chi (length ce)) + (7 + 5 + 10 + csize cb + 16 + 5)).
+  { unfold for_tail. autorewrite with csz. rewrite St, Sf, Si. lia. }
+  assert (Hpre : csize (for_pre clo chi (length ce)) = csize clo + csize chi + 11 + 46 + 22).
+  { unfold for_pre. autorewrite with csz. rewrite Sri, Sloop, Sset. lia. }
+  pose proof (code_at_bound _ _ _ Hc) as Hbd. rewrite Hcs in Hbd.
+  pose proof (code_at_app_l _ _ _ _ Hc) as Hcpre. apply code_at_app_r in Hc. fold top in Hc.
+  unfold for_pre in Hcpre.
+  pose proof (code_at_app_l _ _ _ _ Hcpre) as Hc1. apply code_at_app_r in Hcpre.
+  pose proof (code_at_app_l _ _ _ _ Hc1) as Hclo. apply code_at_app_r in Hc1.
+  pose proof (code_at_app_l _ _ _ _ Hc1) as Hchi. apply code_at_app_r in Hc1.
+  pose proof (code_at_app_l _ _ _ _ Hc1) as Hinit. apply code_at_app_r in Hc1. rewrite Sri in Hc1.
+  autorewrite with csz in Hcpre. rewrite Sri, Sloop in Hcpre.
+  eapply rpost_bind.
+  { eapply (IHlo genv en out ce p clo p1 fn fe cf pos ret locs st cs g); try eassumption; [inf|].
+    eapply pool_le_trans; [eassumption|]. eapply pool_le_trans; [eassumption|]. eapply pool_le_trans; eassumption. }
+  intros vlo o1 m _ [-> Hvlo]; cbv iota beta.
+  eapply rpost_bind.
+  { eapply (IHhi genv en o1 ce p1 chi p2 fn fe cf _ ret locs (mval_of vlo :: st) cs g); try eassumption; [inf|].
+    eapply pool_le_trans; eassumption. }
+  intros vhi o2 m _ [-> Hvhi]; cbv iota beta.
+  destruct vlo as [a|?| |?]; rt. destruct vhi as [b|?| |?]; rt.
+  cbn [val_ok mval_of] in *.
+  (* range: end, i, empty array *)
+  unfold rng_init in Hinit.
+  vstep Hfe Hcode Hinit step_store_local; [lia|]. vnext Hinit.
+  vstep Hfe Hcode Hinit step_store_local; [rewrite set_nth_length; lia|]. vnext Hinit.
+  vstep Hfe Hcode Hinit step_arr_new. vnext Hinit.
+  vstep Hfe Hcode Hinit step_store_local; [rewrite !set_nth_length; rewrite ?set_nth_length; lia|].
+  set (locsA := set_nth (length ce) (MInt b) locs).
+  set (locsB := set_nth (length ce + 1) (MInt a) locsA).
+  set (locsC := set_nth (length ce + 2) (MArr []) locsB).
+  assert (LA : length locsA = length locs) by (apply set_nth_length; lia).
+  assert (LB : length locsB = length locs) by (unfold locsB; rewrite set_nth_length; lia).
+  assert (LC : length locsC = length locs) by (unfold locsC; rewrite set_nth_length; lia).
+  assert (AgC : agree (length ce) locs locsC).
+  { eapply agree_trans; [apply (agree_set (length ce) locs (length ce)); lia|].
+    eapply agree_trans; [apply (agree_set (length ce) locsA (length ce + 1)); lia|].
+    apply (agree_set (length ce) locsB (length ce + 2)); lia. }
+  at_code Hc1.
+  eapply (rng_loop_run M fn fe cf _ (length ce) ret st cs g o2 b Hfe Hcode Hsz Hc1 Hvhi (Z.to_nat (b - a)) a [] locsC eq_refl Hvlo).
+  { unfold locsC, locsB. rewrite !nth_error_set_nth_ne by (rewrite ?set_nth_length; lia). apply nth_error_set_nth_eq. lia. }
+  { unfold locsC. rewrite nth_error_set_nth_ne by lia. apply nth_error_set_nth_eq. lia. }
+  { apply nth_error_set_nth_eq. lia. }
+  intros locsD AgD. cbn [app]. destruct AgD as [LD FD].
+  (* for: arr, idx = 0, len *)
+  unfold for_setup in Hcpre.
+  vstep Hfe Hcode Hcpre step_store_local; [lia|]. vnext Hcpre.
+  vstep Hfe Hcode Hcpre step_push_i64. vnext Hcpre.
+  vstep Hfe Hcode Hcpre step_store_local; [rewrite set_nth_length; lia|]. vnext Hcpre.
+  set (arr := MArr (map MInt (zrange a (Z.to_nat (b - a))))).
+  set (locsE := set_nth (length ce + 3) arr locsD).
+  set (locsF := set_nth (length ce + 4) (MInt (to_signed 64 (i64 0))) locsE).
+  assert (LE : length locsE = length locs) by (unfold locsE; rewrite set_nth_length; lia).
+  assert (LF : length locsF = length locs) by (unfold locsF; rewrite set_nth_length; lia).
+  assert (HarrF : nth_error locsF (length ce + 3) = Some arr).
+  { unfold locsF. rewrite nth_error_set_nth_ne by lia. apply nth_error_set_nth_eq. lia. }
+  vstep Hfe Hcode Hcpre step_load_local; [exact HarrF|]. vnext Hcpre.
+  vstep Hfe Hcode Hcpre step_arr_len. vnext Hcpre.
+  vstep Hfe Hcode Hcpre step_store_local; [lia|].
+  rewrite map_length, zrange_length.
+  set (locsG := set_nth (length ce + 5) (MInt (Z.of_nat (Z.to_nat (b - a)))) locsF).
+  assert (LG : length locsG = length locs) by (unfold locsG; rewrite set_nth_length; lia).
+  assert (AgG : agree (length ce) locs locsG).
+  { eapply agree_trans; [exact AgC|]. eapply agree_trans; [split; [exact LD|exact FD]|].
+    eapply agree_trans; [apply (agree_set (length ce) locsD (length ce + 3)); lia|].
+    eapply agree_trans; [apply (agree_set (length ce) locsE (length ce + 4)); lia|].
+    apply (agree_set (length ce) locsF (length ce + 5)); lia. }
+  at_code Hc. rewrite Hcs.
+  eapply Reach_rebase with (locs1 := locsG); [exact LG|apply agree_keeps; exact AgG|].
+  replace (pos + (csize (for_pre clo chi (length ce)) + (7 + 5 + 10 + csize cb + 16 + 5))) with (top + 7 + 5 + 10 + csize cb + 16 + 5)
+    by (unfold top; lia).
+  replace a with (a + Z.of_nat 0)%Z at 2 by lia.
+  eapply (IHf genv en o2 ce p2 cb ce1 p3 L fn fe cf top ret locsG st cs g a b 0); try eassumption.
+  - inf.
+  - eapply agree_match_env; eassumption.
+  - lia.
+  - unfold locsG, locsF. rewrite !nth_error_set_nth_ne by (rewrite ?set_nth_length; lia). apply nth_error_set_nth_eq. lia.
+  - unfold locsG. rewrite nth_error_set_nth_ne by lia. unfold locsF. rewrite nth_error_set_nth_eq by lia.
+    rewrite i64_signed by reflexivity. reflexivity.
+  - apply nth_error_set_nth_eq. lia.
+  - unfold fuel_small in Hfuel. lia.
+Qed.
+
 End For.
